@@ -682,6 +682,18 @@ class Evaluator:
                 if isinstance(a, (Opaque, Distinct, Cat)):
                     return str if isinstance(a, (Distinct, Cat)) else Opaque("type")
                 return type(a)
+            if fn.id == "int" and len(args) == 2 and isinstance(args[0], str) and type(args[1]) is int:
+                try:
+                    return int(args[0], args[1])
+                except ValueError:
+                    raise Raised("ValueError")
+            if fn.id == "chr" and len(args) == 1 and type(args[0]) is int:
+                try:
+                    return chr(args[0])
+                except (ValueError, OverflowError):
+                    raise Raised("ValueError")
+            if fn.id == "ord" and len(args) == 1 and isinstance(args[0], str) and len(args[0]) == 1:
+                return ord(args[0])
             if fn.id in ("int", "float", "bool") and len(args) == 1 and isinstance(args[0], (int, float, bool, str)):
                 try:
                     return {"int": int, "float": float, "bool": bool}[fn.id](args[0])
@@ -889,6 +901,26 @@ class Evaluator:
             if isinstance(rx, tuple) and len(rx) == 2 and rx[0] == "re" and isinstance(rx[1], str):
                 import re as _re
                 return [{"start()": m.start(), "end()": m.end(), "group()": m.group()} for m in _re.compile(rx[1]).finditer(*args)]
+        if isinstance(fn, ast.Attribute) and fn.attr == "sub" and len(args) >= 2 and isinstance(args[0], Closure) and isinstance(args[1], str) and not kws:
+            try:
+                rx = self.expr(fn.value, env, f, depth)
+            except AnalysisError:
+                rx = None
+            if isinstance(rx, tuple) and len(rx) == 2 and rx[0] == "re" and isinstance(rx[1], str):
+                import re as _re
+                clo = args[0]
+
+                def _repl(m):
+                    def grp(rec, a, k):
+                        return m.group(*a)
+                    grp.wants_args = True
+                    sub = dict(clo.env)
+                    sub[clo.node.args.args[0].arg] = {"group()": grp, "start()": m.start(), "end()": m.end()}
+                    v = self.expr(clo.node.body, sub, clo.f, depth)
+                    if not isinstance(v, str):
+                        raise AnalysisError("regex replacement function does not evaluate to a string (%s)" % f.loc(e))
+                    return v
+                return _re.compile(rx[1]).sub(_repl, *args[1:])
         if isinstance(fn, ast.Attribute) and fn.attr in ("sub", "split", "findall") and args and all(isinstance(a, (str, int)) for a in args) and not kws:
             try:
                 rx = self.expr(fn.value, env, f, depth)
